@@ -177,3 +177,64 @@ int ctl_not_dangling(sqfs_file_t *f, void **result)
 	}
 	return 0;
 }
+
+/* ---- offsets into a field buffer ---- */
+int ctl_offset_ignored(ctl_rd_t *rd, const void *src, unsigned int off, unsigned int n);
+int ctl_offset_ok(ctl_rd_t *rd, const void *src, unsigned int off, unsigned int n);
+int ctl_offset_wrap(ctl_rd_t *rd, const void *src, unsigned int off, unsigned int n);
+int ctl_src_wrap(ctl_rd_t *rd, void *dst, unsigned int off, unsigned int n);
+int ctl_src_ok(ctl_rd_t *rd, void *dst, unsigned int off, unsigned int n);
+
+/* wrong: the length alone is compared with the capacity, the offset is free */
+int ctl_offset_ignored(ctl_rd_t *rd, const void *src, unsigned int off, unsigned int n)
+{
+	if (n > rd->block_size)
+		return -1;
+	memcpy(rd->buffer + off, src, n);
+	return 0;
+}
+
+/* correct */
+int ctl_offset_ok(ctl_rd_t *rd, const void *src, unsigned int off, unsigned int n)
+{
+	if (off > rd->block_size || n > rd->block_size - off)
+		return -1;
+	memcpy(rd->buffer + off, src, n);
+	return 0;
+}
+
+/* wrong: the 32 bit sum wraps */
+int ctl_offset_wrap(ctl_rd_t *rd, const void *src, unsigned int off, unsigned int n)
+{
+	if (off + n > rd->block_size)
+		return -1;
+	memcpy(rd->buffer + off, src, n);
+	return 0;
+}
+
+/* the same two for a copy *out of* the buffer (K6-src) */
+int ctl_src_wrap(ctl_rd_t *rd, void *dst, unsigned int off, unsigned int n)
+{
+	if (off + n > rd->block_size)
+		return -1;
+	memcpy(dst, rd->buffer + off, n);
+	return 0;
+}
+
+int ctl_src_ok(ctl_rd_t *rd, void *dst, unsigned int off, unsigned int n)
+{
+	if (rd->block_size < off || (rd->block_size - off) < n)
+		return -1;
+	memcpy(dst, rd->buffer + off, n);
+	return 0;
+}
+
+/* correct: the sum is formed in 64 bits from two 32 bit values */
+int ctl_src_sum64(ctl_rd_t *rd, void *dst, unsigned int off, unsigned int n);
+int ctl_src_sum64(ctl_rd_t *rd, void *dst, unsigned int off, unsigned int n)
+{
+	if ((unsigned long)off + n > rd->block_size)
+		return -1;
+	memcpy(dst, rd->buffer + off, n);
+	return 0;
+}
